@@ -339,9 +339,12 @@ def run(ctx):
         kx = kw(c, "key")
         okc, kv = const_str(ctx, w2j.module, kx)
         if not okc and isinstance(kx, ast.Name):
-            for x in walk_own(w2j.node):
-                if isinstance(x, ast.Assign) and isinstance(x.targets[0], ast.Name) and x.targets[0].id == kx.id and x.lineno < c.lineno and c.lineno - x.lineno < 6:
-                    okc, kv = const_str(ctx, w2j.module, x.value)
+            # (the name's definitions, not line numbers: statements expanded from a helper keep the helper's own lines)
+            defs_ = [x for x in walk_own(w2j.node) if isinstance(x, ast.Assign) and isinstance(x.targets[0], ast.Name) and x.targets[0].id == kx.id]
+            near_ = [x for x in defs_ if x.lineno < c.lineno and c.lineno - x.lineno < 6] or defs_
+            vals_ = {const_str(ctx, w2j.module, x.value) for x in near_}
+            if len(vals_) == 1:
+                okc, kv = next(iter(vals_))
         keys.setdefault(kv, []).append(c)
     r4.check(set(keys) == {"survey", "settings", "entities", "external_choices", "choices"}, "workbook_to_json:spell-checked sheets", "survey, choices, external_choices (in the error) and settings, entities (as warning) are checked",
              w2j.loc(), why_fail=repr(sorted(map(str, keys))))
